@@ -35,24 +35,27 @@ fn exact_where<const D: usize>(s: &Snap<D>, q: &[f64; D]) -> (Option<bool>, bool
     let mut decidable = true;
     for ci in 0..s.n_cells() {
         let pts = s.cell_points(ci).unwrap();
-        // decidability: every facet determinant is exactly zero or clear of the band
+        let base = exact::orient(&pts).sign;
         let mut tmp: Vec<&[f64]> = pts.clone();
+        let mut min = 1;
         for i in 0..pts.len() {
             tmp[i] = q;
             let o = exact::orient(&tmp);
-            let (t, e) = exact::orient_band(&tmp);
-            if o.sign != 0 && o.mag <= 4.0 * t + e {
-                decidable = false;
+            if o.sign != 0 {
+                // decidability: a non-zero facet determinant must be clear of the band
+                let (t, e) = exact::orient_band(&tmp);
+                if o.mag <= 4.0 * t + e {
+                    decidable = false;
+                }
             }
+            min = min.min(o.sign * base);
             tmp[i] = pts[i];
         }
-        match exact::simplex_position(&pts, q) {
-            Some(1) => containing.push(ci),
-            Some(0) => {
-                containing.push(ci);
+        if base != 0 && min >= 0 {
+            containing.push(ci);
+            if min == 0 {
                 on_boundary = true;
             }
-            _ => {}
         }
     }
     if !decidable {
@@ -97,7 +100,6 @@ fn queries<const D: usize>(s: &Snap<D>, fine: bool) -> Vec<[f64; D]> {
             let fc: [f64; D] = std::array::from_fn(|i| c.vi.iter().enumerate().filter(|(j, _)| *j != omit).map(|(_, &k)| s.verts[k].c[i]).sum::<f64>() / (n - 1.0));
             out.push(fc);
             out.push(std::array::from_fn(|i| cen[i] + 2.0 * (fc[i] - cen[i])));
-            out.push(std::array::from_fn(|i| cen[i] + 8.0 * (fc[i] - cen[i])));
         }
         for a in 0..c.vi.len() {
             for b in a + 1..c.vi.len() {
@@ -253,12 +255,12 @@ fn main() {
     let cn = Cn { states: AtomicU64::new(0), queries: AtomicU64::new(0), locates: AtomicU64::new(0), inside: AtomicU64::new(0), outside: AtomicU64::new(0), on_boundary_queries: AtomicU64::new(0), undecidable: AtomicU64::new(0) };
     let mut bounds = Vec::new();
     let cap = if thorough { 200 } else { 12 };
-    run_family::<2>(&rep, &cn, "G2(3) subsets", &alpha::grid::<2>(3), 3..=5 + 2 * x, cap, true, &mut bounds);
+    run_family::<2>(&rep, &cn, "G2(3) subsets", &alpha::grid::<2>(3), 4..=5 + 2 * x, if thorough { cap } else { 8 }, true, &mut bounds);
     run_family::<2>(&rep, &cn, "G2(4) subsets", &alpha::grid::<2>(4), 6 + x..=6 + x, 2, true, &mut bounds);
     let mut c3 = alpha::grid::<3>(2);
     c3.push([0.5; 3]);
     run_family::<3>(&rep, &cn, "cube3+centre subsets", &c3, 5 - x..=5 + 2 * x, if thorough { cap } else { 6 }, true, &mut bounds);
-    run_family::<4>(&rep, &cn, "cube alphabet subsets", &alpha::cube_alphabet::<4>(), 5..=6 + x, 4, false, &mut bounds);
+    run_family::<4>(&rep, &cn, "cube alphabet subsets", &alpha::cube_alphabet::<4>(), 6..=6 + x, 3, false, &mut bounds);
     run_family::<5>(&rep, &cn, "cube alphabet subsets", &alpha::cube_alphabet::<5>(), 6 + 1 - x..=7, 2, false, &mut bounds);
     run_family::<2>(&rep, &cn, "moment curve", &alpha::moment_points::<2>(8), 7..=7 + x, 6, false, &mut bounds);
     run_family::<3>(&rep, &cn, "moment curve", &alpha::moment_points::<3>(7), 7 - x..=7, 6, false, &mut bounds);
